@@ -879,15 +879,167 @@ theorem emitEndTag_some (enc : Enc) (S : St) (name raw : Bytes) (hs : List EndTa
   · have := hE hem
     simp [this, hvec, runEndTagHandlers_last _ hz, hem]
 
+/-- Number of descriptors in `ds` that keep content handler `i` active. -/
+def sumInd (H : List Handler) (ds : List ElementDescriptor) (i : Nat) : Nat :=
+  (ds.filter fun d => isContentHandler H i && d.matched.contains i).length
+
+theorem sumInd_cons (H : List Handler) (d : ElementDescriptor) (ds : List ElementDescriptor) (i : Nat) :
+    sumInd H (d :: ds) i
+      = (if isContentHandler H i && d.matched.contains i then 1 else 0) + sumInd H ds i := by
+  simp only [sumInd, List.filter_cons]
+  split <;> simp <;> omega
+
+theorem occ_eq_sumInd (H : List Handler) (i : Nat) (st : List StackItem) :
+    occ H i st = sumInd H (st.map StackItem.data) i := by
+  induction st with
+  | nil => rfl
+  | cons it st ih => rw [occ_cons, List.map_cons, sumInd_cons, ih]
+
+theorem sumInd_append (H : List Handler) (a b : List ElementDescriptor) (i : Nat) :
+    sumInd H (a ++ b) i = sumInd H a i + sumInd H b i := by
+  simp [sumInd, List.filter_append]
+
+theorem sumInd_reverse (H : List Handler) (a : List ElementDescriptor) (i : Nat) :
+    sumInd H a.reverse i = sumInd H a i := by
+  simp [sumInd, List.filter_reverse]
+
+/-- Popping elements that deferred nothing and keep their content: only the user counts move. -/
+theorem foldl_stopMatching_untouched (H : List Handler) (ds : List ElementDescriptor) (S : St)
+    (hd : ∀ d ∈ ds, d.matched.Nodup ∧ d.endTagHandlerIdx = none ∧ d.removeContent = false)
+    (hc : ∀ i, sumInd H ds i ≤ S.counts i) :
+    ds.foldl (stopMatching H) S = { S with counts := fun i => S.counts i - sumInd H ds i } := by
+  induction ds generalizing S with
+  | nil => simp [sumInd]
+  | cons d ds ih =>
+    have hd0 := hd d List.mem_cons_self
+    have hpos : ∀ i ∈ d.matched, isContentHandler H i = true → 1 ≤ S.counts i := by
+      intro i hi hci
+      have := hc i
+      rw [sumInd_cons] at this
+      have hcont : d.matched.contains i = true := by simpa using hi
+      rw [hci, hcont] at this
+      simp only [Bool.and_self, if_true] at this
+      omega
+    rw [List.foldl_cons, stopMatching_none H S d hd0.1 hpos hd0.2.1 (by simp [hd0.2.2])]
+    rw [ih _ (fun d' hd' => hd d' (List.mem_cons_of_mem _ hd'))]
+    · obtain ⟨st, cn, iv, eh, rc, em, tp, f1, f2⟩ := S
+      simp only [hd0.2.2, Bool.false_eq_true, if_false, Nat.sub_zero, St.mk.injEq, true_and, and_true]
+      funext i
+      rw [sumInd_cons]
+      omega
+    · intro i
+      have := hc i
+      rw [sumInd_cons] at this
+      simp only
+      omega
+
 theorem occ_ge_of_mem (H : List Handler) (i : Nat) (it : StackItem) (st : List StackItem)
     (hc : isContentHandler H i = true) (hm : i ∈ it.data.matched) : 1 ≤ occ H i (it :: st) := by
   rw [occ_cons]
   have : it.data.matched.contains i = true := by simpa using hm
   simp [hc, hm]
 
+theorem take_len_succ {α : Type} (a : List α) (x : α) (b : List α) :
+    List.take (a.length + 1) (a ++ x :: b) = a ++ [x] := by
+  induction a with
+  | nil => simp
+  | cons y a ih => simp [ih]
+
+theorem drop_len_succ {α : Type} (a : List α) (x : α) (b : List α) :
+    List.drop (a.length + 1) (a ++ x :: b) = b := by
+  induction a with
+  | nil => simp
+  | cons y a ih => simp [ih]
+
+theorem take_len {α : Type} (a b : List α) : List.take a.length (a ++ b) = a := by
+  induction a with
+  | nil => simp
+  | cons y a ih => simp [ih]
+
+theorem get_len {α : Type} (a : List α) (x : α) (b : List α) : (a ++ x :: b)[a.length]? = some x := by
+  induction a with
+  | nil => simp
+  | cons y a ih => simp [ih]
+
+theorem occ_append (H : List Handler) (i : Nat) (a b : List StackItem) :
+    occ H i (a ++ b) = occ H i a + occ H i b := by
+  simp [occ, List.filter_append]
+
+theorem Rel.split {enc : Enc} {st : List StackItem} {os : List OpenEl} {hs : List EndTagHandlerItem}
+    (r : Rel enc st os hs) (p : OpenEl → Bool) (idx : Nat) (hfi : os.findIdx? p = some idx)
+    (hun : ∀ o ∈ os.take idx, o.edit = none) :
+    ∃ imps target rest impsO targetO restO,
+      st = imps ++ target :: rest ∧ os = impsO ++ targetO :: restO ∧ imps.length = idx
+        ∧ impsO.length = idx
+        ∧ (∀ it ∈ imps, it.data.endTagHandlerIdx = none ∧ it.data.removeContent = false)
+        ∧ (∀ o ∈ impsO, o.edit = none)
+        ∧ Rel enc (target :: rest) (targetO :: restO) hs := by
+  induction r generalizing idx with
+  | nil => simp at hfi
+  | @consNone mi so rest ro hs r hn hm hi he ih =>
+    rw [List.findIdx?_cons] at hfi
+    by_cases hp : p so = true
+    · simp only [hp, if_true, Option.some.injEq] at hfi
+      subst hfi
+      exact ⟨[], mi, rest, [], so, ro, rfl, rfl, rfl, rfl, by simp, by simp, Rel.consNone r hn hm hi he⟩
+    · simp only [hp, Bool.false_eq_true, if_false] at hfi
+      cases hfr : ro.findIdx? p with
+      | none => simp [hfr] at hfi
+      | some idx' =>
+        simp only [hfr, Option.map_some, Option.some.injEq] at hfi
+        subst hfi
+        have hso : so.edit = none := hun so (by simp)
+        obtain ⟨imps, target, rest', impsO, targetO, restO, h1, h2, h3, h4, h5, h6, h7⟩ :=
+          ih idx' hfr (fun o ho => hun o (by simp [List.take_succ_cons, ho]))
+        rw [hso] at he
+        refine ⟨mi :: imps, target, rest', so :: impsO, targetO, restO, by rw [h1]; rfl, by rw [h2]; rfl,
+          by simp [h3], by simp [h4], ?_, ?_, h7⟩
+        · intro it hit
+          rcases List.mem_cons.mp hit with rfl | hit
+          · exact ⟨hi, he.1⟩
+          · exact h5 it hit
+        · intro o ho
+          rcases List.mem_cons.mp ho with rfl | ho
+          · exact hso
+          · exact h6 o ho
+  | @consSome mi so rest ro hs hd r hn hm hi he ih =>
+    rw [List.findIdx?_cons] at hfi
+    by_cases hp : p so = true
+    · simp only [hp, if_true, Option.some.injEq] at hfi
+      subst hfi
+      exact ⟨[], mi, rest, [], so, ro, rfl, rfl, rfl, rfl, by simp, by simp, Rel.consSome r hn hm hi he⟩
+    · simp only [hp, Bool.false_eq_true, if_false] at hfi
+      cases hfr : ro.findIdx? p with
+      | none => simp [hfr] at hfi
+      | some idx' =>
+        simp only [hfr, Option.map_some, Option.some.injEq] at hfi
+        subst hfi
+        have hso : so.edit = none := hun so (by simp)
+        rw [hso] at he
+        exact absurd he.2 (by simp)
+
+theorem closeAllImplicit_untouched (enc : Enc) (s : SpecSt) (els below : List OpenEl)
+    (h : ∀ o ∈ els, o.edit = none) : closeAllImplicit enc s els below = [] := by
+  induction els generalizing below with
+  | nil => rfl
+  | cons o os ih =>
+    simp only [closeAllImplicit, closeImplicit, h o List.mem_cons_self,
+      ih _ (fun o' ho' => h o' (List.mem_cons_of_mem _ ho')), List.append_nil]
+
+theorem countRemoved_untouched (imps tail : List StackItem)
+    (h : ∀ it ∈ imps, it.data.removeContent = false) :
+    countRemoved (imps ++ tail) = countRemoved tail := by
+  induction imps with
+  | nil => rfl
+  | cons it imps ih =>
+    have := ih (fun x hx => h x (List.mem_cons_of_mem _ hx))
+    simp only [countRemoved, List.cons_append, List.filter_cons, h it List.mem_cons_self] at this ⊢
+    simpa using this
+
 theorem stepEndTag_sim {H : List Handler} {enc : Enc} {ms : St} {ss : SpecSt} (h : Sim H enc ms ss)
     (name raw : Bytes)
-    (hnest : ∀ idx, ss.openEls.findIdx? (fun o => o.lname == asciiLowerBytes name) = some idx → idx = 0) :
+    (hunt : ∀ idx, ss.openEls.findIdx? (fun o => o.lname == asciiLowerBytes name) = some idx →
+      ∀ o ∈ ss.openEls.take idx, o.edit = none) :
     Sim H enc (Model.step H enc ms (.endTag name raw)).1 (Spec.EditDoc.step H enc ss (.endTag name raw)).1
       ∧ (Model.step H enc ms (.endTag name raw)).2 = (Spec.EditDoc.step H enc ss (.endTag name raw)).2 := by
   have hrinvFinal := (stepEndTag_spec H enc ms name raw h.rinv).1
@@ -895,12 +1047,12 @@ theorem stepEndTag_sim {H : List Handler} {enc : Enc} {ms : St} {ss : SpecSt} (h
   unfold stepEndTag at hrinvFinal ⊢
   simp only at hrinvFinal ⊢
   obtain ⟨hf, hfo, _, hopen⟩ := flush_sim h
-  rw [← hopen] at hnest
+  rw [← hopen] at hunt
   generalize flushPendingText H enc ms = fm at hf hfo hrinvFinal
-  generalize flushText H enc ss = fs at hf hfo hnest
+  generalize flushText H enc ss = fs at hf hfo hunt
   obtain ⟨ms1, o1⟩ := fm
   obtain ⟨ss1, o2⟩ := fs
-  simp only at hf hfo hnest hrinvFinal ⊢
+  simp only at hf hfo hunt hrinvFinal ⊢
   subst hfo
   unfold popForEndTag popUpTo at hrinvFinal ⊢
   rw [hf.rel.findIdx] at hrinvFinal ⊢
@@ -916,8 +1068,6 @@ theorem stepEndTag_sim {H : List Handler} {enc : Enc} {ms : St} {ss : SpecSt} (h
     rw [← hemrc]
     exact hf.emit raw
   | some idx =>
-    have hidx : idx = 0 := hnest idx hfi
-    subst hidx
     simp only [hfi] at hrinvFinal ⊢
     obtain ⟨stack, counts, inv, eh, rc, em, tp, f1, f2⟩ := ms1
     obtain ⟨os, sinv, stp⟩ := ss1
@@ -929,90 +1079,108 @@ theorem stepEndTag_sim {H : List Handler} {enc : Enc} {ms : St} {ss : SpecSt} (h
     have hnd := hf.nodup
     have hnf := hf.nofault
     have hnu := hf.rinv.noUnderflow
-    simp only at hrel hcinv hcount hinv htp hnd hnf hnu hemrc hall hfi hrinvFinal ⊢
-    cases hrel with
-    | nil => simp at hfi
-    | @consNone mi so rest ro hs r hn hm hi he =>
-      simp only [List.take_succ_cons, List.take_zero, List.reverse_cons, List.reverse_nil, List.nil_append,
-        List.map_cons, List.map_nil, List.foldl_cons, List.foldl_nil, List.drop_succ_cons, List.drop_zero,
-        Nat.zero_add, List.getElem?_cons_zero, closeAllImplicit, List.append_nil] at hrinvFinal ⊢
-      have hpos : ∀ i ∈ mi.data.matched, isContentHandler H i = true → 1 ≤ counts i := by
-        intro i hi' hc; rw [hcinv i]; have := occ_ge_of_mem H i mi rest hc hi'; omega
-      have hrc : mi.data.removeContent = true → rc ≠ 0 := by
-        intro hr; rw [hcount]; simp [countRemoved, List.filter_cons, hr]
-      rw [stopMatching_none H _ mi.data (hnd mi List.mem_cons_self) hpos hi hrc] at hrinvFinal ⊢
-      have hE : em = true → rc - (if mi.data.removeContent = true then 1 else 0) = 0 := by
-        intro he'; have : rc = 0 := by rw [hemrc] at he'; simpa using he'
-        omega
-      rw [emitEndTag_none enc _ name raw r.allZero hE] at hrinvFinal ⊢
-      have hrc' : rc - (if mi.data.removeContent = true then 1 else 0) = countRemoved rest := by
-        rw [hcount]; cases hr : mi.data.removeContent <;> simp [countRemoved, List.filter_cons, hr]
-      refine ⟨⟨hinv, htp, r, ?_, hrinvFinal, hnf, fun it hit => hnd it (List.mem_cons_of_mem _ hit)⟩, ?_⟩
-      · intro i
-        show counts i - _ = base H i + occ H i rest
-        have := hcinv i
-        rw [occ_cons] at this
-        omega
-      · simp only
-        congr 1
-        have hsup : suppressed { openEls := ro, inv := sinv, textPending := stp } = !(countRemoved rest == 0) := by
-          rw [countRemoved_pos_iff_any, suppressed, r.suppressed]; simp
-        have hemit : ∀ b : Bytes, Spec.EditDoc.emit { openEls := ro, inv := sinv, textPending := stp } b
-            = if (countRemoved rest == 0) = true then b else [] := by
-          intro b; rw [Spec.EditDoc.emit, hsup]; cases (countRemoved rest == 0) <;> rfl
-        rw [hrc']
-        cases hed : so.edit with
-        | none => simp only; rw [hemit]
-        | some E =>
-          simp only
-          rw [hed] at he
-          have := he.2 name raw
-          simp only at this
-          rw [fresh_endTag_intoBytes] at this
-          rw [← this, hemit]
-    | @consSome mi so rest ro hs hd r hn hm hi he =>
-      simp only [List.take_succ_cons, List.take_zero, List.reverse_cons, List.reverse_nil, List.nil_append,
-        List.map_cons, List.map_nil, List.foldl_cons, List.foldl_nil, List.drop_succ_cons, List.drop_zero,
-        Nat.zero_add, List.getElem?_cons_zero, closeAllImplicit, List.append_nil] at hrinvFinal ⊢
-      have hpos : ∀ i ∈ mi.data.matched, isContentHandler H i = true → 1 ≤ counts i := by
-        intro i hi' hc; rw [hcinv i]; have := occ_ge_of_mem H i mi rest hc hi'; omega
-      have hrc : mi.data.removeContent = true → rc ≠ 0 := by
-        intro hr; rw [hcount]; simp [countRemoved, hr]
-      rw [stopMatching_some H _ mi.data (hnd mi List.mem_cons_self) hpos hs hd rfl hi hrc] at hrinvFinal ⊢
-      have hE : em = true → rc - (if mi.data.removeContent = true then 1 else 0) = 0 := by
-        intro he'; have : rc = 0 := by rw [hemrc] at he'; simpa using he'
-        omega
+    simp only at hrel hcinv hcount hinv htp hnd hnf hnu hemrc hall hfi hrinvFinal hunt ⊢
+    obtain ⟨imps, target, rest, impsO, targetO, restO, hst, hos, hl1, hl2, himps, himpsO, hrelT⟩ :=
+      hrel.split _ idx hfi (hunt idx hfi)
+    subst hst hos
+    have htake : List.take (idx + 1) (imps ++ target :: rest) = imps ++ [target] := by
+      rw [← hl1]; exact take_len_succ _ _ _
+    have hdrop : List.drop (idx + 1) (imps ++ target :: rest) = rest := by
+      rw [← hl1]; exact drop_len_succ _ _ _
+    have htakeO : List.take idx (impsO ++ targetO :: restO) = impsO := by
+      rw [← hl2]; exact take_len _ _
+    have hdropO : List.drop (idx + 1) (impsO ++ targetO :: restO) = restO := by
+      rw [← hl2]; exact drop_len_succ _ _ _
+    have hgetO : (impsO ++ targetO :: restO)[idx]? = some targetO := by
+      rw [← hl2]; exact get_len _ _ _
+    simp only [htake, hdrop, htakeO, hdropO, hgetO, List.reverse_append, List.reverse_cons, List.reverse_nil,
+      List.nil_append, List.singleton_append, List.map_cons, List.foldl_cons,
+      closeAllImplicit_untouched enc _ impsO _ himpsO, List.append_nil] at hrinvFinal ⊢
+    -- facts about counts
+    have hndT : target.data.matched.Nodup := hnd target (by simp)
+    have hcinv' : ∀ i, counts i = base H i
+        + (sumInd H (imps.map StackItem.data) i
+          + ((if isContentHandler H i && target.data.matched.contains i then 1 else 0) + occ H i rest)) := by
+      intro i; rw [hcinv i, occ_append, occ_cons, occ_eq_sumInd]
+    have hpos : ∀ i ∈ target.data.matched, isContentHandler H i = true → 1 ≤ counts i := by
+      intro i hi' hc
+      rw [hcinv' i]
+      have : target.data.matched.contains i = true := by simpa using hi'
+      simp only [hc, this, Bool.and_self, if_true]
+      omega
+    have hcountT : rc = countRemoved (target :: rest) := by
+      rw [hcount, countRemoved_untouched imps _ (fun it hit => (himps it hit).2)]
+    have hrc : target.data.removeContent = true → rc ≠ 0 := by
+      intro hr; rw [hcountT]; simp [countRemoved, hr]
+    have hE : em = true → rc - (if target.data.removeContent = true then 1 else 0) = 0 := by
+      intro he'; have : rc = 0 := by rw [hemrc] at he'; simpa using he'
+      omega
+    have hrc' : rc - (if target.data.removeContent = true then 1 else 0) = countRemoved rest := by
+      rw [hcountT]; cases hr : target.data.removeContent <;> simp [countRemoved, hr]
+    have hdU : ∀ d ∈ (imps.reverse.map StackItem.data),
+        d.matched.Nodup ∧ d.endTagHandlerIdx = none ∧ d.removeContent = false := by
+      intro d hd
+      obtain ⟨it, hit, rfl⟩ := List.mem_map.mp hd
+      have hit' : it ∈ imps := List.mem_reverse.mp hit
+      exact ⟨hnd it (by simp [hit']), (himps it hit').1, (himps it hit').2⟩
+    have hsum : ∀ i, sumInd H (imps.reverse.map StackItem.data) i = sumInd H (imps.map StackItem.data) i := by
+      intro i; rw [List.map_reverse, sumInd_reverse]
+    have hfinalCounts : ∀ i, counts i
+          - (if isContentHandler H i && target.data.matched.contains i then 1 else 0)
+          - sumInd H (imps.reverse.map StackItem.data) i = base H i + occ H i rest := by
+      intro i; rw [hsum i, hcinv' i]; omega
+    have hfoldC : ∀ i, sumInd H (imps.reverse.map StackItem.data) i
+        ≤ counts i - (if isContentHandler H i && target.data.matched.contains i then 1 else 0) := by
+      intro i; rw [hsum i, hcinv' i]; omega
+    cases hrelT with
+    | @consNone _ _ _ _ _ r hn hm hi he =>
+      rw [stopMatching_none H _ target.data hndT hpos hi hrc] at hrinvFinal ⊢
+      rw [foldl_stopMatching_untouched H _ _ hdU hfoldC] at hrinvFinal ⊢
+      rw [emitEndTag_none enc _ name raw hall hE] at hrinvFinal ⊢
+      have hsup : suppressed { openEls := restO, inv := sinv, textPending := stp } = !(countRemoved rest == 0) := by
+        rw [countRemoved_pos_iff_any, suppressed, r.suppressed]; simp
+      have hemit : ∀ b : Bytes, Spec.EditDoc.emit { openEls := restO, inv := sinv, textPending := stp } b
+          = if (countRemoved rest == 0) = true then b else [] := by
+        intro b; rw [Spec.EditDoc.emit, hsup]; cases (countRemoved rest == 0) <;> rfl
+      refine ⟨⟨hinv, htp, r, hfinalCounts, hrinvFinal, hnf, fun it hit => hnd it (by simp [hit])⟩, ?_⟩
+      simp only
+      congr 1
+      rw [hrc']
+      cases hed : targetO.edit with
+      | none => simp only; rw [hemit]
+      | some E =>
+        simp only
+        rw [hed] at he
+        have := he.2 name raw
+        simp only at this
+        rw [fresh_endTag_intoBytes] at this
+        rw [← this, hemit]
+    | @consSome _ _ _ _ hs hd r hn hm hi he =>
+      rw [stopMatching_some H _ target.data hndT hpos hs hd rfl hi hrc] at hrinvFinal ⊢
+      rw [foldl_stopMatching_untouched H _ _ hdU hfoldC] at hrinvFinal ⊢
       rw [emitEndTag_some enc _ name raw hs hd rfl r.allZero hE] at hrinvFinal ⊢
-      have hrc' : rc - (if mi.data.removeContent = true then 1 else 0) = countRemoved rest := by
-        rw [hcount]; cases hr : mi.data.removeContent <;> simp [countRemoved, hr]
-      refine ⟨⟨hinv, htp, r, ?_, hrinvFinal, hnf, fun it hit => hnd it (List.mem_cons_of_mem _ hit)⟩, ?_⟩
-      · intro i
-        show counts i - _ = base H i + occ H i rest
-        have := hcinv i
-        rw [occ_cons] at this
-        omega
-      · simp only
-        congr 1
-        have hsup : suppressed { openEls := ro, inv := sinv, textPending := stp } = !(countRemoved rest == 0) := by
-          rw [countRemoved_pos_iff_any, suppressed, r.suppressed]; simp
-        have hemit : ∀ b : Bytes, Spec.EditDoc.emit { openEls := ro, inv := sinv, textPending := stp } b
-            = if (countRemoved rest == 0) = true then b else [] := by
-          intro b; rw [Spec.EditDoc.emit, hsup]; cases (countRemoved rest == 0) <;> rfl
-        rw [hrc']
-        cases hed : so.edit with
-        | none => rw [hed] at he; exact absurd he.2 (by simp)
-        | some E =>
-          simp only
-          rw [hed] at he
-          have := he.2 name raw
-          simp only at this
-          rw [← this, hemit]
-
+      have hsup : suppressed { openEls := restO, inv := sinv, textPending := stp } = !(countRemoved rest == 0) := by
+        rw [countRemoved_pos_iff_any, suppressed, r.suppressed]; simp
+      have hemit : ∀ b : Bytes, Spec.EditDoc.emit { openEls := restO, inv := sinv, textPending := stp } b
+          = if (countRemoved rest == 0) = true then b else [] := by
+        intro b; rw [Spec.EditDoc.emit, hsup]; cases (countRemoved rest == 0) <;> rfl
+      refine ⟨⟨hinv, htp, r, hfinalCounts, hrinvFinal, hnf, fun it hit => hnd it (by simp [hit])⟩, ?_⟩
+      simp only
+      congr 1
+      rw [hrc']
+      cases hed : targetO.edit with
+      | none => rw [hed] at he; exact absurd he.2 (by simp)
+      | some E =>
+        simp only
+        rw [hed] at he
+        have := he.2 name raw
+        simp only at this
+        rw [← this, hemit]
 
 /-! ### H. Whole runs -/
 
 theorem step_sim {H : List Handler} {enc : Enc} {ms : St} {ss : SpecSt} (h : Sim H enc ms ss)
-    (tok : SrcToken) (hn : closesInnermost ss tok = true) :
+    (tok : SrcToken) (hn : closesUntouched ss tok = true) :
     Sim H enc (Model.step H enc ms tok).1 (Spec.EditDoc.step H enc ss tok).1
       ∧ (Model.step H enc ms tok).2 = (Spec.EditDoc.step H enc ss tok).2 := by
   cases tok with
@@ -1022,21 +1190,24 @@ theorem step_sim {H : List Handler} {enc : Enc} {ms : St} {ss : SpecSt} (h : Sim
   | startTag n a sc ns raw => exact stepStartTag_sim h n a sc ns raw
   | endTag n raw =>
     apply stepEndTag_sim h n raw
-    intro idx hidx
-    simp only [closesInnermost, hidx] at hn
-    simpa using hn
+    intro idx hidx o ho
+    simp only [closesUntouched, hidx, List.all_eq_true] at hn
+    have := hn o ho
+    cases hoe : o.edit with
+    | none => rfl
+    | some e => simp [hoe] at this
 
 theorem steps_sim {H : List Handler} {enc : Enc} (toks : List SrcToken) {ms : St} {ss : SpecSt}
-    (h : Sim H enc ms ss) (hn : nestedRun H enc ss toks = true) :
+    (h : Sim H enc ms ss) (hn : tidyRun H enc ss toks = true) :
     Sim H enc (Model.steps H enc ms toks).1 (Spec.EditDoc.steps H enc ss toks).1
       ∧ (Model.steps H enc ms toks).2.flatten = (Spec.EditDoc.steps H enc ss toks).2
       ∧ (Spec.EditDoc.steps H enc ss toks).1.openEls.any (elHasEndEdits enc) = false := by
   induction toks generalizing ms ss with
   | nil =>
-    simp only [nestedRun, Bool.not_eq_true'] at hn
+    simp only [tidyRun, Bool.not_eq_true'] at hn
     exact ⟨h, rfl, hn⟩
   | cons t ts ih =>
-    simp only [nestedRun, Bool.and_eq_true] at hn
+    simp only [tidyRun, Bool.and_eq_true] at hn
     have h1 := step_sim h t hn.1
     have h2 := ih h1.1 hn.2
     simp only [Model.steps, Spec.EditDoc.steps, List.flatten_cons]
@@ -1063,7 +1234,7 @@ theorem closeAllImplicit_nil_of_clean (enc : Enc) (s : SpecSt) (els below : List
 
 /-- **Refinement**: on well-nested runs the dispatcher model produces the documented edit. -/
 theorem rewrite_refines (H : List Handler) (enc : Enc) (toks : List SrcToken)
-    (hn : nestedRun H enc {} toks = true) :
+    (hn : tidyRun H enc {} toks = true) :
     (Model.rewrite H enc toks).2 = Spec.EditDoc.rewrite H enc toks
       ∧ (Model.rewrite H enc toks).1.fault = false ∧ (Model.rewrite H enc toks).1.faultRemoved = false := by
   obtain ⟨hs, ho, hclean⟩ := steps_sim toks (Sim_init H enc) hn
